@@ -1,8 +1,10 @@
 (* C11 -- messages pushed concurrently reach the socket whole and in order (PARTIAL: see docs/C11.md).
-   Model: Model/Push.v.  A schedule is ANY list of ops (thread t pushes its next message / the loop runs the oldest
-   scheduled _push_msg / handle_write sends one chunk), any number of threads, any message contents and sizes.
-   What the model assumes and cannot exhibit: call_soon_threadsafe / callFromThread are FIFO, a coroutine without an
-   await between put_nowait calls is one loop step, sock_sendall / transport.write send the whole chunk. *)
+   Model: Model/Push.v.  A schedule is ANY list of ops: thread t calls push() with its next message (application threads
+   hand off through a threadsafe callback that creates the task, the loop thread / every twisted thread schedules the
+   step directly, all in ONE ready FIFO) / the loop runs its oldest ready entry / the socket accepts up to k bytes of the
+   chunk being written.  Any number of threads, any message contents and sizes, any partial-send pattern.
+   What the model assumes and cannot exhibit: the ready queue is FIFO, a coroutine without an await between put_nowait
+   calls is one loop step, the writer resumes the unsent rest of a chunk (sock_sendall / twisted transport buffer). *)
 From Coq Require Import ZArith List Bool Arith.
 From Verif Require Import Push C11_proofs.
 Import ListNotations.
@@ -13,18 +15,30 @@ Theorem C11_chunks : forall n m, (0 < n)%nat ->
 Proof. exact chunks_ok. Qed.
 Print Assumptions C11_chunks.
 
-(* at every point of every interleaving: bytes on the wire, then the write queue, then the scheduled tasks are exactly
-   the pushed messages concatenated in scheduling order (so every message is contiguous, none duplicated or lost);
-   that order restricted to a thread is a prefix of the thread's own push sequence; when the loop has drained, the
-   wire IS the concatenation *)
-Theorem C11_order : forall md prog ops, mode_ok md ->
-  let s := run md prog ops in
-  wire s ++ concat (queue s) ++ concat (map t_msg (tasks s)) = concat (map snd (order s))
-  /\ (forall t, thread_part t (order s) ++ todo s t = prog t)
-  /\ (tasks s = [] -> queue s = [] -> wire s = concat (map snd (order s)))
-  /\ Forall (fun tk => concat (t_chunks tk) = t_msg tk) (tasks s).
+(* at every point of every interleaving: the bytes accepted by the socket, then the unsent rest of the current chunk,
+   then the write queue are exactly the messages whose task step has run, concatenated whole in that order (no message
+   truncated, duplicated or interleaved, however the socket splits the sends); that order restricted to a thread,
+   followed by the thread's messages still in the ready queue (scheduled steps first, then handoffs) and by what it has
+   not pushed yet, is the thread's program; when everything is drained the wire IS the concatenation and each thread's
+   part of it is exactly what the thread pushed *)
+Theorem C11_order : forall c prog ops, mode_ok (p_mode c) -> p_keep_rest c = true ->
+  let s := run c prog ops in
+  wire s ++ cur s ++ concat (queue s) = concat (map snd (order s))
+  /\ (forall t, thread_part t (order s) ++ steps_of t (ready s) ++ handoffs_of t (ready s) ++ todo s t = prog t)
+  /\ (drained s -> wire s = concat (map snd (order s)) /\ forall t, thread_part t (order s) ++ todo s t = prog t).
 Proof. exact order_main. Qed.
 Print Assumptions C11_order.
+
+(* a writer that treats a partial send as complete (drops the unsent rest of the chunk) truncates messages *)
+Theorem C11_partial_send_must_resume :
+  exists c prog ops, mode_ok (p_mode c) /\ p_keep_rest c = false /\
+    drained (run c prog ops) /\ wire (run c prog ops) <> concat (map snd (order (run c prog ops))).
+Proof.
+  exists (mkCfg (Chunked 4) (fun _ => false) false), (prog_of [[(7%Z, 6%nat)]]),
+         [Push 0; RunReady; RunReady; SendPart 3; SendPart 4].
+  split; [cbn; auto with arith|]. split; [reflexivity|]. split; [cbv; auto|]. cbv. discriminate.
+Qed.
+Print Assumptions C11_partial_send_must_resume.
 
 (* out_buffer_size = 0 is not a usable configuration: push() raises for every non-empty message *)
 Theorem C11_zero_buffer_raises : forall m, (0 < length m)%nat -> chunks 0 m = None.
@@ -33,7 +47,10 @@ Print Assumptions C11_zero_buffer_raises.
 
 Example C11_nonvacuous :
   let prog := prog_of [[(1%Z, 5%nat); (2%Z, 2%nat)]; [(3%Z, 4%nat)]] in
-  let s := run (Chunked 3) prog [Push 0; Push 1; RunTask; Write; Push 0; RunTask; Write; Write; RunTask; Write; Write] in
-  wire s = [1;1;1;1;1;3;3;3;3;2;2]%Z /\ queue s = [] /\ tasks s = []
+  (* thread 0 = application thread (handoff, then task step), thread 1 = the loop thread (step scheduled directly) *)
+  let c := mkCfg (Chunked 3) (fun t => Nat.eqb t 1) true in
+  let s := run c prog [Push 0; Push 1; RunReady; RunReady; SendPart 2; RunReady; Push 0; SendPart 9; SendPart 1; SendPart 9;
+                       RunReady; RunReady; SendPart 9; SendPart 9; SendPart 9] in
+  wire s = [3;3;3;3;1;1;1;1;1;2;2]%Z /\ drained s
   /\ chunks 3 [1;1;1;1;1]%Z = Some [[1;1;1]; [1;1]]%Z.
-Proof. cbn. repeat split; reflexivity. Qed.
+Proof. cbv. repeat split; reflexivity. Qed.
